@@ -291,3 +291,34 @@ func TestTraceOf(t *testing.T) {
 	}
 	c15TraceOf(t, *fDoc)
 }
+
+// FuzzProp is the native (coverage-guided) campaign of the thorough tier: the fuzzer's bytes drive the
+// property's own rapid generator (rapid.MakeFuzz), the oracle and the ledger triage are the same as in
+// TestWorker. A violation outside the ledger is written to -vout as a replay file and fails the target.
+func FuzzProp(f *testing.F) {
+	p := Registry[*fProp]
+	if p == nil {
+		f.Skip("no property")
+	}
+	debug.SetMaxStack(256 << 20)
+	l := loadLedger(f)
+	s := NewStats(p.ID)
+	f.Add([]byte{})
+	f.Add([]byte{1, 2, 3, 4, 5, 6, 7, 8, 9, 10, 11, 12, 13, 14, 15, 16})
+	f.Add([]byte("\xff\xff\xff\xff\xff\xff\xff\xff\x00\x00\x00\x00\x80\x80\x80\x80\x7f\x7f\x7f\x7f"))
+	f.Fuzz(rapid.MakeFuzz(func(t *rapid.T) {
+		c := p.Gen(t, Thorough)
+		v, _ := RunGuarded(p, c)
+		if v.Sig == "INFRA" {
+			t.Skip("infrastructure")
+		}
+		if judge(p, l, s, &v) {
+			if *fOut != "" {
+				rec := ViolationRec{Property: p.ID, Sig: v.Sig, Msg: v.Msg, Case: CaseJSON(c), Seed: 0, Tier: "thorough-fuzz"}
+				b, _ := json.MarshalIndent(rec, "", " ")
+				os.WriteFile(fmt.Sprintf("%s.%016x.json", *fOut, Hash64(rec.Case)), b, 0o644)
+			}
+			t.Fatalf("VIOLATION %s: %s", v.Sig, firstLines(v.Msg, 3))
+		}
+	}))
+}
